@@ -44,6 +44,8 @@ TRUSTED = [
     "crypto/uuid answers supplied as tables by the reference controller)",
     "harness/ref/pairverify_client.py (independent controller: pair-verify, frame codec, HTTP reader) on the "
     "`cryptography` primitives, harness/ref/tlv8.py, generators; cryptography/h11/uuid libraries; asyncio transport contract",
+    "rig configuration (generator dimension, invisible to the model by design): stock classes or application subclasses of "
+    "AccessoryDriver / Accessory overriding the public hooks in the usual style; IPv4 or IPv6 peer names",
     "uuid_to_bytes bookkeeping and persistence scheduling inside _pair_verify_two are not modelled (not observable here)",
 ]
 
@@ -154,11 +156,133 @@ class _InlineExecutor(_cf.ThreadPoolExecutor):
         return f
 
 
+class _StubAdvertiser:
+    """mDNS advertiser of a started driver (nothing is sent anywhere)."""
+
+    async def async_register_service(self, *_a, **_k):
+        return None
+
+    async def async_unregister_service(self, _info):
+        return None
+
+    async def async_update_service(self, _info):
+        return None
+
+    async def async_close(self):
+        return None
+
+
+FRAMES = ["split-body", "split-3", "split-last", "chunked", "chunked-split"]
+
+
+def reframe(raw: bytes, frame: Optional[str]) -> List[bytes]:
+    """The same HTTP request in another legal framing; one list element per read on the accessory's side.
+    split-body: headers + half of the body, then the rest; split-3: headers / a third / the rest; split-last: the last byte
+    on its own; chunked: Transfer-Encoding: chunked with three chunks in one read; chunked-split: the same in two reads."""
+    if not frame or b"\r\n\r\n" not in raw:
+        return [raw]
+    he = raw.index(b"\r\n\r\n") + 4
+    head, body = raw[:he], raw[he:]
+    if len(body) < 3:
+        return [raw]
+    if frame.startswith("chunked"):
+        lines = [ln for ln in head[:-4].split(b"\r\n") if not ln.lower().startswith(b"content-length")]
+        head = b"\r\n".join(lines + [b"Transfer-Encoding: chunked"]) + b"\r\n\r\n"
+        k = len(body) // 3
+        enc = b"".join(b"%x\r\n%s\r\n" % (len(x), x) for x in (body[:k], body[k : 2 * k], body[2 * k :])) + b"0\r\n\r\n"
+        w = head + enc
+        if frame == "chunked":
+            return [w]
+        cut = len(head) + len(enc) // 2
+        return [w[:cut], w[cut:]]
+    if frame == "split-body":
+        return [head + body[: len(body) // 2], body[len(body) // 2 :]]
+    if frame == "split-3":
+        return [head, body[: len(body) // 3], body[len(body) // 3 :]]
+    if frame == "split-last":
+        return [raw[:-1], raw[-1:]]
+    return [raw]
+
+
+def app_subclasses(driver_base, accessory_base):
+    """Application subclasses in the usual style (what e.g. Home Assistant's HomeDriver / HomeAccessory do): every public
+    hook is overridden, calls super() and adds (here: no) logic of its own.  Hooks without a documented return value return
+    nothing; hooks with a documented return value pass it through."""
+
+    class AppDriver(driver_base):
+        # ---- hooks without a documented return value
+        def unpair(self, client_uuid):
+            super().unpair(client_uuid)
+
+        def finish_pair(self):
+            super().finish_pair()
+
+        def connection_lost(self, client):
+            super().connection_lost(client)
+
+        def async_persist(self):
+            super().async_persist()
+
+        def persist(self):
+            super().persist()
+
+        def config_changed(self):
+            super().config_changed()
+
+        def async_update_advertisement(self):
+            super().async_update_advertisement()
+
+        def update_advertisement(self):
+            super().update_advertisement()
+
+        def async_subscribe_client_topic(self, client, topic, subscribe=True):
+            super().async_subscribe_client_topic(client, topic, subscribe)
+
+        def publish(self, data, sender_client_addr=None, immediate=False):
+            super().publish(data, sender_client_addr, immediate)
+
+        # ---- hooks with a documented return value
+        def pair(self, client_username_bytes, client_public, client_permissions):
+            return super().pair(client_username_bytes, client_public, client_permissions)
+
+        def get_accessories(self, *a, **kw):
+            return super().get_accessories(*a, **kw)
+
+        def get_characteristics(self, char_ids):
+            return super().get_characteristics(char_ids)
+
+        def set_characteristics(self, chars_query, client_addr):
+            return super().set_characteristics(chars_query, client_addr)
+
+        def prepare(self, prepare_query, client_addr):
+            return super().prepare(prepare_query, client_addr)
+
+    class AppAccessory(accessory_base):
+        def setup_message(self):
+            super().setup_message()
+
+        def publish(self, value, sender, sender_client_addr=None, immediate=False):
+            super().publish(value, sender, sender_client_addr, immediate)
+
+        async def run(self):
+            await super().run()
+
+        async def stop(self):
+            await super().stop()
+
+    return AppDriver, AppAccessory
+
+
 class World:
     """One accessory (real AccessoryDriver + State) with any number of real protocol objects."""
 
-    def __init__(self, rng, persist_file: Optional[str] = None):
-        """persist_file=None: saving is stubbed out (state lives in memory only).  With a path the real
+    def __init__(self, rng, persist_file: Optional[str] = None, cfg: Optional[Dict[str, Any]] = None):
+        """cfg: configuration of the rig (legal, non-default ways of running the same accessory):
+          driver = "stock" | "subclass"  the application uses AccessoryDriver / Accessory directly, or subclasses that
+                   override the public hook methods in the usual style (call super(), add own logic; hooks that have no
+                   documented return value return nothing, hooks with one pass it through);
+          family = "ipv4" | "ipv6"       peer names are (host, port) or (host, port, flowinfo, scope_id).
+        persist_file=None: saving is stubbed out (state lives in memory only).  With a path the real
         AccessoryDriver.persist()/load() are used (an existing file is loaded: a restart) and saves that
         async_persist hands to the executor are carried out at once."""
         import pyhap.accessory as accessory
@@ -168,6 +292,7 @@ class World:
         import time as _time
 
         self.rng = rng
+        self.cfg = dict(cfg or {})
         self.persist_file = persist_file
         self.clock_offset = 0.0  # virtual time: op "T" advances every clock the accessory can read
         real_mono, real_time = _time.monotonic, _time.time
@@ -184,14 +309,23 @@ class World:
             p.start()
         self.loop = asyncio.new_event_loop()
         asyncio.set_event_loop(self.loop)
-        if persist_file is not None:
+        if persist_file is not None or self.cfg.get("driver") == "subclass":
+            # (an overriding persist() reaches the stubbed-out base method only when it RUNS: a job still sitting in a
+            # thread pool when this world is closed would save for real)
             self.loop.set_default_executor(_InlineExecutor())
         import pyhap.loader as loader
+        import os as _os
 
-        self.driver = accessory_driver.AccessoryDriver(
-            loop=self.loop, persist_file=persist_file or "/tmp/verif-unused.state", loader=loader.get_loader()
+        self.unused_state = "/tmp/verif-unused-%d.state" % _os.getpid()
+
+        driver_cls, acc_cls = accessory_driver.AccessoryDriver, accessory.Accessory
+        if self.cfg.get("driver") == "subclass":
+            driver_cls, acc_cls = app_subclasses(accessory_driver.AccessoryDriver, accessory.Accessory)
+        kw = {"address": "::1"} if self.cfg.get("family") == "ipv6" else {}
+        self.driver = driver_cls(
+            loop=self.loop, persist_file=persist_file or self.unused_state, loader=loader.get_loader(), **kw
         )
-        self.driver.add_accessory(accessory.Accessory(self.driver, "Acc"))
+        self.driver.add_accessory(acc_cls(self.driver, "Acc"))
         self.hap_protocol = hap_protocol
         # the registry the real server would hand to its protocol objects
         self.connections: Dict[Any, Any] = self.driver.http_server.connections
@@ -209,29 +343,77 @@ class World:
             p.stop()
         self.loop.close()
         asyncio.set_event_loop(None)
+        try:
+            import os as _os
+
+            _os.unlink(self.unused_state)  # never written as long as saving is stubbed out; a later world must not load it
+        except OSError:
+            pass
+
+    # ---- object lifecycle: the application starts / stops / starts again the SAME driver object in the same process
+    def lc_start(self):
+        """AccessoryDriver.async_start() for real (the listening socket is the rig's: loop.create_server is stubbed,
+        the advertiser is a stub); connections keep arriving through connection_made as before."""
+        from unittest.mock import AsyncMock, MagicMock
+
+        d = self.driver
+        if getattr(self, "started", False):
+            return False
+        if not d.advertiser or not isinstance(d.advertiser, _StubAdvertiser):
+            d.advertiser = _StubAdvertiser()
+        import contextlib
+        import io
+
+        with patch.object(self.loop, "create_server", AsyncMock(return_value=MagicMock())), contextlib.redirect_stdout(io.StringIO()):
+            self.loop.run_until_complete(d.async_start())  # (an unpaired accessory prints its setup code / QR code)
+        self.loop.run_until_complete(asyncio.sleep(0))
+        self.started = True
+        return True
+
+    def lc_stop(self):
+        """AccessoryDriver.async_stop() for real, to completion (closes every connection)."""
+        if not getattr(self, "started", False):
+            return False
+        self.loop.run_until_complete(self.driver.async_stop())
+        self.loop.run_until_complete(asyncio.sleep(0))
+        self.started = False
+        return True
+
+    def peer(self, c: int):
+        """Peer name of connection c as the transport of the configured address family reports it."""
+        if self.cfg.get("family") == "ipv6":
+            return ("fe80::%x" % (c + 1), 40000 + c, 0, 2 if c % 2 else 0)
+        return ("10.0.0.%d" % (c + 1), 40000 + c)
 
     def conn(self, c: int):
         if c not in self.protos:
             p = self.hap_protocol.HAPServerProtocol(self.loop, self.connections, self.driver)
-            t = FakeTransport(("10.0.0.%d" % (c + 1), 40000 + c))
+            t = FakeTransport(self.peer(c))
             p.connection_made(t)
             self.protos[c], self.transports[c], self.rconn[c] = p, t, RefConn()
         return self.protos[c], self.transports[c], self.rconn[c]
 
-    def request(self, c: int, raw: bytes, split: Optional[int] = None) -> Dict[str, Any]:
-        """Send one HTTP request the way the controller believes the transport works; read the answer."""
+    def request(self, c: int, raw: bytes, split: Optional[int] = None, frame: Optional[str] = None) -> Dict[str, Any]:
+        """Send one HTTP request the way the controller believes the transport works; read the answer.
+        split: the wire bytes arrive in two reads cut at this offset.  frame: legal HTTP/1.1 framings of the same request
+        (see `reframe`): the body in several reads (each piece sealed on its own inside a session) / chunked encoding."""
         p, t, r = self.conn(c)
         under = r.session_key
         if t.closed:
             return {"status": None, "closed": True, "under": under}
-        wire = r.session.seal(raw) if r.session else raw
+        pieces = reframe(raw, frame)
         t.out.clear()
         try:
-            if split and 0 < split < len(wire):
-                p.data_received(wire[:split])
-                p.data_received(wire[split:])
+            if len(pieces) > 1:
+                for piece in pieces:
+                    p.data_received(r.session.seal(piece) if r.session else piece)
             else:
-                p.data_received(wire)
+                wire = r.session.seal(pieces[0]) if r.session else pieces[0]
+                if split and 0 < split < len(wire):
+                    p.data_received(wire[:split])
+                    p.data_received(wire[split:])
+                else:
+                    p.data_received(wire)
         except Exception as ex:  # noqa: BLE001  (a protocol object must not raise; C19's business)
             return {"status": None, "raised": type(ex).__name__, "under": under}
         data = bytes(t.out)
@@ -278,6 +460,23 @@ def canon_model(a: Dict[str, Any]) -> Dict[str, Any]:
 # ----------------------------------------------------------------------------- script execution
 
 
+def script_cfg(script) -> Dict[str, Any]:
+    """The rig configuration a script asks for ({"op": "config", "driver": .., "family": ..}; default: stock, IPv4)."""
+    cfg: Dict[str, Any] = {}
+    for op in script:
+        if op.get("op") == "config":
+            cfg.update({k: v for k, v in op.items() if k != "op"})
+    return cfg
+
+
+def CFG(driver="stock", family="ipv4"):
+    return {"op": "config", "driver": driver, "family": family}
+
+
+CONFIGS = [("subclass", "ipv4"), ("stock", "ipv6"), ("subclass", "ipv6")]
+
+
+
 class Runner:
     """Executes one abstract script on the real code, builds the concrete model line, judges."""
 
@@ -287,7 +486,8 @@ class Runner:
         self.ctx = ctx
         self.script = script
         self.krng = random.Random(keyseed)
-        self.w = World(self.krng)
+        self.cfg = script_cfg(script)
+        self.w = World(self.krng, cfg=self.cfg)
         # long-term signing keys of the controllers (index 0..3) + one never registered (index 9)
         self.sk = {j: rc.ed25519.Ed25519PrivateKey.from_private_bytes(self._rb(32)) for j in (0, 1, 2, 3, 9)}
         self.ref_paired: Dict[uuidlib.UUID, Dict[str, Any]] = {}  # reference's own record of the pairings
@@ -375,6 +575,16 @@ class Runner:
             self.outcomes.append("skipped-closed")
         return t.closed
 
+    def op_config(self, n, op):
+        """Configuration of the rig (read before the accessory is created): no operation of its own."""
+        self.outcomes.append("config")
+
+    def op_LC(self, n, op):
+        """Object lifecycle of the driver: the application starts it / stops it (every connection is closed) / starts the
+        same object again.  Pairings are untouched, so nothing changes for the property (and for the model)."""
+        done = self.w.lc_start() if op["what"] == "start" else self.w.lc_stop()
+        self.outcomes.append("LC-" + op["what"] + ("" if done else "-noop"))
+
     def op_T(self, n, op):
         """Time passes (every clock the accessory can read is advanced)."""
         self.w.clock_offset += float(op["dt"])
@@ -384,7 +594,7 @@ class Runner:
         """Send a first message; reference bookkeeping, model tables, oracles."""
         _p, _t, r = self.w.conn(c)
         n = len(self.mops)  # the model names the key pair generated in a step by the step number
-        m = self.w.request(c, rc.http_request("POST", "/pair-verify", body, CT), op.get("split"))
+        m = self.w.request(c, rc.http_request("POST", "/pair-verify", body, CT), op.get("split"), op.get("frame"))
         got = canon_resp(m)
         answered = m.get("status") == 200 and ex.on_m2(m.get("body", b""), rc.raw_pub_bytes(self.w.driver.state.public_key))
         if answered:
@@ -458,7 +668,7 @@ class Runner:
         cur = r.cur
         expected, why = self.ref_iff(cur, body)
         self.fill_tables(body)
-        m = self.w.request(c, rc.http_request("POST", "/pair-verify", body, CT), op.get("split"))
+        m = self.w.request(c, rc.http_request("POST", "/pair-verify", body, CT), op.get("split"), op.get("frame"))
         got = canon_resp(m)
         success = got.get("status") == 200 and got.get("tlv") == [[rc.T_STATE, "04"]]
         self.mops.append({"op": "verify", "conn": c, "body": hx(body)})
@@ -587,7 +797,7 @@ class Runner:
         self.fill_tables(body)
 
         before_verified = r.verified_as
-        m = self.w.request(c, rc.http_request("POST", "/pair-verify", body, CT), op.get("split"))
+        m = self.w.request(c, rc.http_request("POST", "/pair-verify", body, CT), op.get("split"), op.get("frame"))
         got = canon_resp(m)
         success = got.get("status") == 200 and got.get("tlv") == [[rc.T_STATE, "04"]]
         self.mops.append({"op": "verify", "conn": c, "body": hx(body)})
@@ -692,7 +902,7 @@ class Runner:
             return
         _p, _t, r = self.w.conn(c)
         body = tlv8.encode([(rc.T_METHOD, b"\x05")])
-        m = self.w.request(c, rc.http_request("POST", "/pairings", body, CT), op.get("split"))
+        m = self.w.request(c, rc.http_request("POST", "/pairings", body, CT), op.get("split"), op.get("frame"))
         got = canon_resp(m)
         listed = None
         if got.get("status") == 200 and "tlv" in got and not any(t == rc.T_ERROR for t, _ in got["tlv"]):
@@ -720,7 +930,7 @@ class Runner:
         who = r.verified_as
         may = who is not None and who in self.ref_paired and self.ref_paired[who]["admin"]
         body = tlv8.encode([(rc.T_METHOD, b"\x04"), (rc.T_ID, ident)])
-        m = self.w.request(c, rc.http_request("POST", "/pairings", body, CT), op.get("split"))
+        m = self.w.request(c, rc.http_request("POST", "/pairings", body, CT), op.get("split"), op.get("frame"))
         got = canon_resp(m)
         acked = got.get("status") == 200 and got.get("tlv") == [[rc.T_STATE, "02"]]
         if may:
@@ -739,7 +949,7 @@ class Runner:
         if self.closed(c):
             return
         _p, _t, r = self.w.conn(c)
-        m = self.w.request(c, rc.http_request("GET", "/accessories"), op.get("split"))
+        m = self.w.request(c, rc.http_request("GET", "/accessories"), op.get("split"), op.get("frame"))
         got = canon_resp(m)
         self.mops.append({"op": "get", "conn": c})
         self.impl.append({"resp": got, "under": _h(m.get("under"))})
@@ -826,6 +1036,10 @@ def T(dt):
     return {"op": "T", "dt": dt}
 
 
+def LC(what):
+    return {"op": "LC", "what": what}
+
+
 MATERIALS = ["swapped", "other_sepk", "other_cepk", "other_exchange", "other_id", "no_sepk", "no_cepk"]
 OUTERS = ["other", "random", "shared"]
 MALS = [
@@ -893,6 +1107,23 @@ def boundary_scripts() -> List[List[Dict[str, Any]]]:
         s.append([P(0), P(1, admin=False), V1(0), V3(0, i=1), L(0), V1(0), V3(0, i=0, **{"key": 0, **bogus}), L(0), G(0)])
     s.append([P(0), P(1, admin=False), L(0), V1(0), L(0), V3(0, i=0, key=9), L(0), V3(0, i=0), L(0), V1(0), V3(0, i=1, key=9), L(0)])
     s.append([P(0), P(1, admin=False), V1(0), V3(0, i=1), L(0), RP(0, 0), V1(0), V3(0, i=0), L(0), RP(0, 1), V1(1), V3(1, i=1), G(1)])
+    # ---- legal framings of the same requests: the body in several reads, chunked transfer encoding -- outside and inside
+    # a session (inside, every piece is sealed on its own)
+    for fr in FRAMES:
+        s.append([P(0), V1(0, frame=fr), V3(0, frame=fr), G(0), {**L(0), "frame": fr}, V1(0, frame=fr), V3(0, frame=fr), G(0), {**L(0), "frame": fr},
+                  V1(1), V3(1, frame=fr), G(1), V1(2, frame=fr), V3(2, key=9, frame=fr), G(2)])
+    # ---- object lifecycle: started; stopped and started again (same driver object); sessions of before are gone, every
+    # registered controller verifies as before, removed ones do not
+    s.append([P(0), P(1, admin=False), LC("start"), V1(0), V3(0), G(0), V1(1), V3(1, i=1), G(1), LC("stop"), G(0), LC("start"),
+              V1(2), V3(2), G(2), V1(3), V3(3, i=1), G(3), L(2), U(1), V1(4), V3(4, i=1), G(4), LC("stop"), LC("start"), V1(5), V3(5), G(5),
+              V1(6), V3(6, i=1), G(6)])
+    s.append([LC("start"), P(0), V1(0), V3(0), G(0), LC("stop"), LC("start"), LC("stop"), LC("start"), V1(1), V3(1), G(1), RX(2), G(2)])
+    # ---- the rig configuration: application subclasses of AccessoryDriver / Accessory, IPv6 peer names
+    core = [s[0], s[3], s[6], s[8], s[-1], [P(0), P(1, admin=False), V1(0), V3(0), G(0), V1(1), V3(1, i=1), G(1), RP(0, 1), G(1), V1(2), V3(2, i=1), G(2),
+                                             RX(3), G(3), L(0), U(0), V1(4), V3(4), G(4)]]
+    for drv, fam in CONFIGS:
+        for sc in core:
+            s.append([CFG(drv, fam), *sc])
     return s
 
 
@@ -906,9 +1137,18 @@ def random_script(rng) -> List[Dict[str, Any]]:
             ops.append(P(i, admin=(i == 0 or rng.random() < 0.4), sp=rng.choice(SPELLINGS[:3])))
     length = rng.randrange(5, 15)
     pending = set()  # connections with an answered-looking first step (generator's guess, keeps scripts mostly valid)
+    started = rng.random() < 0.3  # object lifecycle: the application has started the driver (async_start)
+    if started:
+        ops.insert(rng.randrange(len(ops) + 1), LC("start"))
+    base = 0
     while len(ops) < length:
         x = rng.random()
-        c = rng.randrange(n_conn)
+        if started and rng.random() < 0.06:
+            # ... stops it and starts the same object again: every connection of before is gone
+            ops += [LC("stop"), LC("start")]
+            base += 10
+            pending.clear()
+        c = base + rng.randrange(n_conn)
         split = rng.choice([None, None, None, 1, 30, 97])
         if x < 0.07:
             i = rng.randrange(n_ctl)
@@ -925,7 +1165,7 @@ def random_script(rng) -> List[Dict[str, Any]]:
                 j = rng.choice([i % n_ctl, rng.randrange(n_ctl), 3])
                 ops.append(P(j, key=rng.choice([j, j, (j + 1) % 3]), admin=rng.random() < 0.6))
         elif x < 0.20:
-            ops.append(RX(rng.choice([c, n_conn + rng.randrange(3)]), pick=rng.randrange(4)))
+            ops.append(RX(rng.choice([c, base + n_conn + rng.randrange(3)]), pick=rng.randrange(4)))
             if rng.random() < 0.6:
                 ops.append(G(ops[-1]["conn"]))
         elif x < 0.22:
@@ -934,12 +1174,12 @@ def random_script(rng) -> List[Dict[str, Any]]:
             ops.append(L(c))
         elif x < 0.38:
             eph = "fresh" if rng.random() < 0.85 else rng.choice(["zero", "short", "nokey", "reuse"])
-            ops.append(V1(c, eph=eph, pick=rng.randrange(4), split=split))
+            ops.append(V1(c, eph=eph, pick=rng.randrange(4), split=split, **({"frame": rng.choice(FRAMES)} if rng.random() < 0.2 else {})))
             if eph in ("fresh", "reuse"):
                 pending.add(c)
         elif x < 0.88:
             if c not in pending and rng.random() < 0.85:
-                ops.append(V1(c, split=split))
+                ops.append(V1(c, split=split, **({"frame": rng.choice(FRAMES)} if rng.random() < 0.2 else {})))
                 pending.add(c)
             i = rng.randrange(n_ctl + (1 if rng.random() < 0.15 else 0))
             op = V3(c, i=i, sp=rng.choice(SPELLINGS[:3] if rng.random() < 0.9 else SPELLINGS), pick=rng.randrange(4), split=split)
@@ -956,6 +1196,8 @@ def random_script(rng) -> List[Dict[str, Any]]:
                 op["mal"] = rng.choice(MALS + BENIGN)
             else:
                 op = {"op": "V3", "conn": c, "badid": rng.randrange(len(BAD_IDS)), "key": rng.randrange(3), "pick": 0}
+            if rng.random() < 0.25:
+                op["frame"] = rng.choice(FRAMES)
             ops.append(op)
             if rng.random() < 0.7:
                 ops.append(G(c))
@@ -969,7 +1211,10 @@ def random_script(rng) -> List[Dict[str, Any]]:
 def gen_scripts(ctx: Ctx) -> List[List[Dict[str, Any]]]:
     scripts = boundary_scripts()
     for _ in range(ctx.n(300, 10000)):
-        scripts.append(random_script(ctx.rng))
+        sc = random_script(ctx.rng)
+        if ctx.rng.random() < 0.4:  # the rig configuration is a dimension of its own (default: stock classes, IPv4)
+            sc = [CFG(*ctx.rng.choice(CONFIGS)), *sc]
+        scripts.append(sc)
     return scripts
 
 
